@@ -2,6 +2,7 @@ import XrsVerif.Proofs.Focal
 import XrsVerif.Proofs.FocalHot
 import XrsVerif.Proofs.ILFocal
 import XrsVerif.Proofs.ILApplyRefines
+import XrsVerif.Proofs.ILApplyEven
 import XrsVerif.Proofs.ILMeanIter
 /-
   C09 -- Focal results are statistics of exactly the cells under the kernel.
@@ -613,6 +614,35 @@ theorem il_focal_stats (data kernel : List F) (rows cols kr kc : Nat) (hkr : kr 
   simp [focalStats, hacc, focal_stats_validates_kernel, focal_stats_default, statReducer, focal_stats_table, npReducer,
     focal_stats_applies_each, Focal.apply, apply_validates_kernel, ilApplyProgs, List.mapM_cons]
   rfl
+
+/-- **il_apply_even_err.** a kernel with an even side is outside the property's domain ("any odd kernel shape";
+    `custom_kernel` rejects it before `apply` / `focal_stats` call `_apply_numpy`: `kernel_validation`).  In
+    `_apply_numpy` the index arithmetic `kyidx = ky - (y - hrows)` then runs up to `2·hrows = krows`, one past the last
+    kernel row, whenever the raster cell `(y + hrows, ·)` exists (likewise for columns): each of the seven generated
+    programs stops, already at output cell `(0, 0)`, with an out-of-range read of `kernel` (numba does not check:
+    undefined behaviour, and a write past the end of `kernel_values` if the value read happens to be 1) -/
+theorem il_apply_even_err (data kernel : List F) (rows cols kr kc : Nat) (s : State F) (fuel : Nat)
+    (hin : ApplyInput data kernel rows cols kr kc s)
+    (heven : (kr % 2 = 0 ∧ kr / 2 < rows ∧ 0 < cols) ∨ (kc % 2 = 0 ∧ kc / 2 < cols ∧ 0 < rows)) :
+    ∀ pr ∈ (ilApplyProgs : List (String × Prog × (List F → F))), (pr.2.1.run s fuel).ctl = .err "index" := by
+  intro pr hpr
+  simp only [ilApplyProgs, List.mem_cons, List.mem_nil_iff, or_false] at hpr
+  rcases hpr with rfl | rfl | rfl | rfl | rfl | rfl | rfl
+  · simp only [Prog.run, applyMean_body]; exact applyBody_even_err _ _ data kernel rows cols kr kc s fuel hin heven
+  · simp only [Prog.run, applyMax_body]; exact applyBody_even_err _ _ data kernel rows cols kr kc s fuel hin heven
+  · simp only [Prog.run, applyMin_body]; exact applyBody_even_err _ _ data kernel rows cols kr kc s fuel hin heven
+  · simp only [Prog.run, applyRange_body]; exact applyBody_even_err _ _ data kernel rows cols kr kc s fuel hin heven
+  · simp only [Prog.run, applyStd_body]; exact applyBody_even_err _ _ data kernel rows cols kr kc s fuel hin heven
+  · simp only [Prog.run, applyVar_body]; exact applyBody_even_err _ _ data kernel rows cols kr kc s fuel hin heven
+  · simp only [Prog.run, applySum_body]; exact applyBody_even_err _ _ data kernel rows cols kr kc s fuel hin heven
+
+-- non-vacuity: a 2x3 kernel on a 2x2 raster, a 1x2 kernel on a 1x2 raster, any contents, any number type
+example (data kernel : List F) : (Gen.IL.applyMean.run (applyState data kernel 2 2 2 3) 0).ctl = .err "index" :=
+  il_apply_even_err data kernel 2 2 2 3 _ 0 (applyState_input _ _ _ _ _ _) (Or.inl (by decide))
+    ("mean", Gen.IL.applyMean, nanmean) (by simp [ilApplyProgs])
+example (data kernel : List F) : (Gen.IL.applySum.run (applyState data kernel 1 2 1 2) 0).ctl = .err "index" :=
+  il_apply_even_err data kernel 1 2 1 2 _ 0 (applyState_input _ _ _ _ _ _) (Or.inr (by decide))
+    ("sum", Gen.IL.applySum, nansum) (by simp [ilApplyProgs])
 
 end ILApplyGeneric
 
